@@ -27,6 +27,7 @@ import (
 	"github.com/bufbuild/buf/private/pkg/storage"
 	"github.com/bufbuild/buf/private/pkg/storage/storageutil"
 	"github.com/bufbuild/buf/private/pkg/syserror"
+	"github.com/bufbuild/buf/private/pkg/verifhook"
 )
 
 // errNotDir is the error returned if a path is not a directory.
@@ -172,6 +173,9 @@ func (b *bucket) Put(ctx context.Context, path string, options ...storage.PutOpt
 	if err != nil {
 		return nil, err
 	}
+	if err := verifhook.Point("os.put"); err != nil {
+		return nil, err
+	}
 	externalDir := filepath.Dir(externalPath)
 	var fileInfo os.FileInfo
 	if b.symlinks {
@@ -201,6 +205,7 @@ func (b *bucket) Put(ctx context.Context, path string, options ...storage.PutOpt
 	if err != nil {
 		return nil, err
 	}
+	_ = verifhook.Point("os.put.created")
 	return newWriteObjectCloser(
 		file,
 		finalPath,
@@ -374,6 +379,14 @@ func newWriteObjectCloser(
 }
 
 func (w *writeObjectCloser) Write(p []byte) (int, error) {
+	if hookErr := verifhook.Point("os.write"); hookErr != nil {
+		written := 0
+		if short := verifhook.ShortWrite(hookErr, len(p)); short > 0 {
+			written, _ = w.file.Write(p[:short])
+		}
+		w.writeErr.Store(hookErr)
+		return written, toStorageError(hookErr)
+	}
 	n, err := w.file.Write(p)
 	if err != nil {
 		w.writeErr.Store(err)
@@ -390,7 +403,11 @@ func (w *writeObjectCloser) SetLocalPath(string) error {
 }
 
 func (w *writeObjectCloser) Close() error {
+	_ = verifhook.Point("os.close.before")
 	err := toStorageError(w.file.Close())
+	if hookErr := verifhook.Point("os.close"); hookErr != nil && err == nil {
+		err = hookErr
+	}
 	// This is an atomic write operation - we need to rename to the final path
 	if w.path != "" {
 		atomicWriteErr := errors.Join(w.writeErr.Load(), err)
@@ -398,9 +415,13 @@ func (w *writeObjectCloser) Close() error {
 		if atomicWriteErr != nil {
 			return toStorageError(errors.Join(atomicWriteErr, os.Remove(w.file.Name())))
 		}
+		if hookErr := verifhook.Point("os.rename.before"); hookErr != nil {
+			return toStorageError(errors.Join(hookErr, os.Remove(w.file.Name())))
+		}
 		if err := os.Rename(w.file.Name(), w.path); err != nil {
 			return toStorageError(errors.Join(err, os.Remove(w.file.Name())))
 		}
+		_ = verifhook.Point("os.rename.after")
 	}
 	return err
 }
